@@ -416,6 +416,11 @@ func (g *G) Expr(ty m.Ty, d int) *m.Node {
 			return m.Op(g.alias("gt", ">", "lt", "<", "ge", ">=", "le", "<="), g.kids(m.TInt, d, 2, 2)...)
 		case 4:
 			et := m.Ty(rapid.IntRange(0, 2).Draw(g.t, "eqty"))
+			if rapid.IntRange(0, 5).Draw(g.t, "eqmixed") == 0 {
+				// two values of different scalar types are values all the same: not equal
+				ot := m.Ty((int(et) + 1 + rapid.IntRange(0, 1).Draw(g.t, "eqother")) % 3)
+				return m.Op(g.alias("eq", "=", "==", "ne", "!="), g.Expr(et, d-1), g.Expr(ot, d-1))
+			}
 			if rapid.Bool().Draw(g.t, "ne") {
 				return m.Op(g.alias("ne", "!="), g.kids(et, d, 2, 2)...)
 			}
